@@ -1058,8 +1058,15 @@ impl ReCompiler {
         if matches!(op1, Operation::EndProgram(_)) {
             return !reluctant;
         }
-        if matches!(op1, Operation::Bol(_)) || matches!(op1, Operation::Eol(_)) {
-            return true;
+        if matches!(op1, Operation::Bol(_)) {
+            // fewer iterations may succeed where the longest run fails
+            // ("a*^a" on "aa"), so backtracking is needed
+            return false;
+        }
+        if matches!(op1, Operation::Eol(_)) {
+            // "$" can only succeed after the longest run, unless the repeated
+            // term can itself match a newline (multi-line mode)
+            return !op0.get_initial_character_class(case_blind).contains('\n');
         }
         if let Some(repeat_operation) = op1.repeat_operation() {
             if repeat_operation.min() == 0 {
